@@ -426,6 +426,7 @@ def interp_case(fn_, T, lay='xyzw', negate=True, spin=False):
                             'x.result - cos(a theta) = %s ; z.result - cos((1-a) theta) = %s%s' % (P.show_poly(dx, limit=3), P.show_poly(dz, limit=3), (' -- non-zero at ' + wa) if wa else ''), kernel=k.source()))
             # guard: acos only under c <= 1 - epsilon (and c >= 0 when the arc is shortened)
             hi = None
+            too_high = None
             for at, v in asg.items():
                 if at[0] != 'pair':
                     continue
@@ -434,6 +435,15 @@ def interp_case(fn_, T, lay='xyzw', negate=True, spin=False):
                     p1n = abs_by_sign(p1, dot, sg, cx)
                     if (p1 == c or p1n == c) and p2.is_const() and rel == 'lt' and Fraction(1, 2) < p2.cval() < 1:
                         hi = p2.cval()
+                    elif (p1 == c or p1n == c) and p2.is_const() and rel == 'lt' and p2.cval() >= 1:
+                        too_high = p2.cval()
+            if hi is None and too_high is not None:
+                # the only bound on cos(theta) admits cos(theta) = 1: for x == y the arm divides 0 by sin(0) = 0
+                res.append(R.ob(pid + '.guard', 'guard', R.REFUTED,
+                                'the spherical arm is entered whenever cos(theta) < %r, which includes cos(theta) = 1: for x == y (e.g. both the identity) theta = 0 and the result is sin(0) / sin(0) = NaN in every component  [%s]' % (float(too_high), rg),
+                                kernel=k.source()))
+                sph_rows.append((asg, infos, got, sg, theta, A, nrm))
+                continue
             res.append(R.ob(pid + '.guard', 'guard', R.PROVED if hi is not None else R.UNDECIDED,
                             'acos / division by sin(theta) are reached only with cos(theta) < %s < 1: theta is bounded away from 0' % float(hi) if hi is not None else
                             'no path condition bounds cos(theta) below 1  [%s]' % rg, kernel=k.source()))
